@@ -29,7 +29,8 @@ CONSTANTS Sites,        \* acquisition sites explored
 
 AllSites == {"host-udp", "host-udpmux", "host-tcpmux", "srflx-own", "srflx-mux", "srflx-mapped", "relay"}
 AllDefects == {"srflxNoCloseOnReject",  \* gatherCandidatesSrflx: addCandidate error path does not close conn (F-C09)
-               "srflxWatcherCloses",    \* ... the loop.Done() watcher closes conn and the error path closes it again (F-C09b)
+               "srflxWatcherCloses",    \* ... the loop.Done() watcher closes conn and the error path closes it again (F-C09b);
+                                        \* without it (repaired tree, 8a84c13) watcher and error paths share one sync.Once closer
                "handoffRace",           \* addCandidate checks ctx before loop.Run only; Run's select may still hand off (F-C18c)
                "closeSkipsOld"}         \* Close waits for the latest cycle only; superseded cycles may still hold resources
 HasGate(s) == s # "srflx-mux"
@@ -69,6 +70,9 @@ Dead(c) == closing \/ c \in cancelled          \* the cycle's context is done
 Opn(c, ns) == [n \in AllNames |-> IF n \in ns THEN [o |-> TRUE, cl |-> 0, rm |-> FALSE, ug |-> gen] ELSE res[c][n]]
 ClsR(r, ns) == [n \in AllNames |-> IF n \in ns /\ r[n].o THEN [r[n] EXCEPT !.cl = @ + 1] ELSE r[n]]
 Cls(c, ns) == ClsR(res[c], ns)
+\* gatherCandidatesSrflx after the repair: whoever of the watcher and the error paths comes first closes, the others find the Once done
+OnceMode == "srflxWatcherCloses" \notin Defects
+ClsS(r) == IF OnceMode /\ r["conn"].cl >= 1 THEN r ELSE ClsR(r, {"conn"})
 Released(r) == r.cl >= 1 \/ r.rm
 UNCH_ENV == UNCHANGED <<hist, nenv, hold, fin>>
 UNCH_CYC == UNCHANGED <<site, fault, gen, closing, closeDone, conn, ncyc, nref, cur, cancelled, cgen>>
@@ -93,7 +97,7 @@ WatcherOn(c) == site = "srflx-own" /\ wf[c] = "armed"
 WatcherFire(c) ==
   /\ WatcherOn(c) /\ closing /\ pc[c] \in {"flight", "built", "handoff", "reject"}
   /\ wf' = [wf EXCEPT ![c] = "fired"]
-  /\ res' = [res EXCEPT ![c] = IF "srflxWatcherCloses" \in Defects THEN Cls(c, {"conn"}) ELSE res[c]]
+  /\ res' = [res EXCEPT ![c] = ClsS(res[c])]
   /\ pc' = [pc EXCEPT ![c] = IF pc[c] = "flight" THEN "ferr" ELSE pc[c]]   \* the pending read is aborted
   /\ UNCH_CYC /\ UNCH_ENV /\ UNCHANGED <<gs, aid, narr, own, comp, nils, nilg, npub, pubmix>>
 WatcherExit(c) ==
@@ -103,7 +107,7 @@ WatcherExit(c) ==
 \* GetXORMappedAddr returned an error: closeConnAndLog
 FlightErr(c) ==
   /\ pc[c] = "ferr"
-  /\ res' = [res EXCEPT ![c] = Cls(c, {"conn"})]
+  /\ res' = [res EXCEPT ![c] = ClsS(res[c])]
   /\ pc' = [pc EXCEPT ![c] = "finish"]
   /\ UNCH_CYC /\ UNCH_ENV /\ UNCHANGED <<gs, aid, narr, own, comp, wf, nils, nilg, npub, pubmix>>
 
@@ -134,7 +138,8 @@ Handoff(c) ==
 \* the error path after addCandidate at each call site
 Reject(c) ==
   /\ pc[c] = "reject"
-  /\ res' = [res EXCEPT ![c] = IF site = "srflx-own" /\ "srflxNoCloseOnReject" \in Defects THEN res[c] ELSE Cls(c, ResNames(site))]
+  /\ res' = [res EXCEPT ![c] = IF site = "srflx-own" THEN (IF "srflxNoCloseOnReject" \in Defects THEN res[c] ELSE ClsS(res[c]))
+                                ELSE Cls(c, ResNames(site))]
   /\ pc' = [pc EXCEPT ![c] = "finish"]
   /\ UNCH_CYC /\ UNCH_ENV /\ UNCHANGED <<gs, aid, narr, own, comp, wf, nils, nilg, npub, pubmix>>
 \* setGatheringState(Complete): dropped for a dead cycle, otherwise enqueues the nil candidate once
@@ -199,7 +204,7 @@ Reply(k) ==
          [] site = "relay" -> res' = [res EXCEPT ![c] = Opn(c, {"conn"})] /\ pc' = [pc EXCEPT ![c] = "built"]
          [] OTHER -> pc' = [pc EXCEPT ![c] = "built"] /\ UNCHANGED res
   /\ UNCH_CYC /\ UNCHANGED <<gs, aid, narr, own, comp, wf, nils, nilg, npub, pubmix>>
-TimeoutOf(r) == CASE site = "srflx-own" -> ClsR(r, {"conn"}) [] site = "relay" -> ClsR(r, {"cli", "loc"}) [] OTHER -> r
+TimeoutOf(r) == CASE site = "srflx-own" -> ClsS(r) [] site = "relay" -> ClsR(r, {"cli", "loc"}) [] OTHER -> r
 Timeout(k) ==
   /\ \E c \in C : aid[c] = k /\ pc[c] = "flight"
   /\ LET c == ByAid(k) IN res' = [res EXCEPT ![c] = TimeoutOf(res[c])] /\ pc' = [pc EXCEPT ![c] = "finish"]
